@@ -3,6 +3,7 @@ module gowarcverif
 go 1.23.0
 
 require (
+	github.com/google/uuid v1.6.0
 	github.com/klauspost/compress v1.18.0
 	github.com/nlnwa/gowarc/v2 v2.0.0
 	github.com/nlnwa/whatwg-url v0.6.2
@@ -10,7 +11,6 @@ require (
 
 require (
 	github.com/bits-and-blooms/bitset v1.22.0 // indirect
-	github.com/google/uuid v1.6.0 // indirect
 	github.com/prometheus/prometheus v0.302.1 // indirect
 	golang.org/x/net v0.38.0 // indirect
 	golang.org/x/sys v0.31.0 // indirect
